@@ -60,3 +60,22 @@ Fixpoint cache_norequery (hist : list (cop * (option Z * bool))) (ops : list cop
   | _, _ => true
   end.
 
+
+(** "... until expiry": a value served without the callback was stored by a successful callback for that key whose lifetime,
+    counted from the instant it was STORED (not from the last read), has not run out; [dflt] is the cache's default lifetime
+    (lifetime 0), a negative lifetime never expires *)
+Definition served_within_lifetime (dflt : Z) (hist : list (cop * (option Z * bool))) (o : cop) (r : option Z * bool) : bool :=
+  match r with
+  | (Some v, false) =>
+      existsb (fun h => (op_key (fst h) =? op_key o) && snd (snd h)
+                        && match fst (snd h) with Some v' => v' =? v | None => false end
+                        && (let e := if op_expire (fst h) =? 0 then dflt else op_expire (fst h) in
+                            (e <? 0) || (op_now o <=? op_now (fst h) + e))) hist
+  | _ => true
+  end.
+
+Fixpoint cache_expiry (dflt : Z) (hist : list (cop * (option Z * bool))) (ops : list cop) (res : list (option Z * bool)) : bool :=
+  match ops, res with
+  | o :: ro, r :: rr => served_within_lifetime dflt hist o r && cache_expiry dflt ((o, r) :: hist) ro rr
+  | _, _ => true
+  end.
